@@ -51,6 +51,9 @@ def install(it):
     A(r'<str as std::string::ToString>::to_string', m_to_owned)
     A(r'<std::string::String as std::convert::From<&str>>::from', m_to_owned)
     A(r'<std::string::String as std::ops::Deref>::deref', m_string_deref)
+    A(r'std::string::String::new', lambda it, a, ty, c: Seq((), 'vec'))
+    A(r'std::string::String::(len)', lambda it, a, ty, c: usize(len(it.load(a[0]).fields)))
+    A(r'std::string::String::(is_empty)', lambda it, a, ty, c: len(it.load(a[0]).fields) == 0)
     A(r'std::string::String::as_str', m_string_deref)
     A(r'std::string::String::as_bytes', m_string_deref)
     A(r'std::str::from_utf8', m_from_utf8)
